@@ -347,6 +347,42 @@ func driveC02(seed int64, tier, out, replay string) {
 		}
 		idx++
 	}
+	// "wild" operations: fragments that repeat or widen the type, nested in each other, interface-typed fields —
+	// model and code only (sanitizer, planner, header); end to end several of these shapes are listed findings
+	if replay == "" {
+		wrng := hx.NewRand(seed + 77)
+		nw := 120
+		if tier == "thorough" {
+			nw = 2500
+		}
+		var wr *Rig
+		for i := 0; i < nw; i++ {
+			if i%10 == 0 {
+				wopt := gen.DefaultWorldOptions()
+				wopt.Interfaces = true
+				wopt.UnionBias = i%20 == 0
+				if nr, err := NewRig(gen.NewWorld(hx.NewRand(wrng.Int63()), wopt), RigConfig{}); err == nil {
+					wr = nr
+				}
+			}
+			if wr == nil {
+				continue
+			}
+			oo := opOptionsFor("inD01", wr.World)
+			oo.Wild, oo.UnevenIDs, oo.HelperNextToFragment = true, i%2 == 0, true
+			op := gen.Operation(hx.NewRand(wrng.Int63()), wr.Merged, oo)
+			wc := c02Case{Op: &op, Domain: "wild"}
+			if pl, ok := wholePlanCoq(wr, op); ok {
+				coq = append(coq, pl)
+				obs.CaseInputs = append(obs.CaseInputs, wc)
+			}
+			if sl, ok := sanitizeCoq(wr, op); ok {
+				coq = append(coq, sl)
+				obs.CaseInputs = append(obs.CaseInputs, wc)
+				obs.Count("wild_operations_through_the_sanitizer_and_planner_models")
+			}
+		}
+	}
 	// shapes the generator does not write, on the hand-written federation: model and code only (some of them are
 	// listed findings end to end) — fragments on interfaces, on the enclosing type, nested, next to helpers
 	if herr == nil && replay == "" {
